@@ -1,12 +1,131 @@
 (* C18 — Pseudo-versions round-trip and sort between their base and the next release.
-   Property theorems only. *)
+   Property theorems only; each is closed by [exact] of a lemma proved in
+   Module/PseudoProofs*.v.
+
+   Reading the statements.  Strings are lists of byte values.  pseudo_version major older ts rv
+   is module.PseudoVersion(major, older, t, rev) with ts = t.UTC().Format("20060102150405")
+   (Some pv: the returned string; None: the index fault inside incDecimal).  The hypotheses
+   are those of DESIGN.md:
+     major : "" or "v" followed by a numeral        (major = [] \/ exists M, major = 118 :: M /\ numeral M)
+     ts    : 14 digits                              (length ts = 14 /\ forallb is_digit ts)
+     rv    : non-empty, [A-Za-z0-9]                 (rv <> [] /\ forallb is_alnum rv)
+     older : any string; a string that is not a valid version is treated by the code (and by the
+             theorems) as "no base"; pseudo_between asks for is_valid older, pseudo_nobase_below
+             for parse older = None (i.e. older = "" or not a version).
+   POk / PErr k / PPanic are a normal return, an error return and a Go panic. *)
 From Verif.Base Require Import Bytes.
 From Verif.Gen Require Import GenRegex.
-From Verif.Semver Require Import Model.
-From Verif.Module Require Import Pseudo PseudoProofsRe.
+From Verif.Semver Require Import Model Spec.
+From Verif.Module Require Import Pseudo PseudoProofsDec PseudoProofsRe PseudoProofs PseudoProofsMain PseudoProofsOrder.
 
+(* the regular expression the recogniser pseudo_re_match was written for is the one in
+   module/pseudo.go now (regenerated into Gen/GenRegex.v on every run) *)
 Theorem C18_pseudo_re_source :
   module_pseudoVersionRE =
   B "^v[0-9]+\.(0\.0-|\d+\.\d+-([^+]*\.)?0\.)\d{14}-[A-Za-z0-9]+(\+[0-9A-Za-z-]+(\.[0-9A-Za-z-]+)*)?$".
 Proof. exact pseudo_re_source. Qed.
 Print Assumptions C18_pseudo_re_source.
+
+(* PseudoVersion never reaches the fault in incDecimal, for arbitrary arguments *)
+Theorem C18_pseudo_version_no_panic :
+  forall major older ts rv, pseudo_version major older ts rv <> None.
+Proof. exact pseudo_version_no_panic. Qed.
+Print Assumptions C18_pseudo_version_no_panic.
+
+Theorem C18_pseudo_valid :
+  forall major older ts rv pv,
+    (major = [] \/ exists M, major = 118 :: M /\ numeral M = true) ->
+    (length ts = 14%nat /\ forallb is_digit ts = true) ->
+    (rv <> [] /\ forallb is_alnum rv = true) ->
+    pseudo_version major older ts rv = Some pv ->
+    is_valid pv = true /\ is_pseudo_version pv = true.
+Proof. exact pseudo_valid. Qed.
+Print Assumptions C18_pseudo_valid.
+
+(* base (canonical form plus build metadata; "" without a base), revision and timestamp are
+   recovered; in particular PseudoVersionBase returns normally: its two panic branches and
+   its error branches are not reached *)
+Theorem C18_pseudo_roundtrip :
+  forall major older ts rv pv,
+    (major = [] \/ exists M, major = 118 :: M /\ numeral M = true) ->
+    (length ts = 14%nat /\ forallb is_digit ts = true) ->
+    (rv <> [] /\ forallb is_alnum rv = true) ->
+    pseudo_version major older ts rv = Some pv ->
+    pseudo_version_base pv = POk (canonical older ++ build older) /\
+    pseudo_version_rev pv = POk rv /\
+    pseudo_version_ts pv = (if ts_valid ts then POk ts else PErr 3).
+Proof. exact pseudo_roundtrip. Qed.
+Print Assumptions C18_pseudo_roundtrip.
+
+(* decDecimal undoes incDecimal on numerals of any length *)
+Theorem C18_inc_dec_decimal :
+  forall d d', numeral d = true -> inc_decimal d = Some d' -> dec_decimal d' = d.
+Proof. exact inc_dec_decimal. Qed.
+Print Assumptions C18_inc_dec_decimal.
+
+(* ... on digit strings with leading zeros too, except '0' followed only by nines, where the
+   leading zero is lost ("099" -> "100" -> "99"); such strings are not patch numbers *)
+Theorem C18_inc_dec_decimal_digits :
+  forall d d', forallb is_digit d = true -> d <> [] ->
+               (forall k, d <> 48 :: repeat 57 (S k)) ->
+               inc_decimal d = Some d' -> dec_decimal d' = d.
+Proof. exact inc_dec_decimal_digits. Qed.
+Print Assumptions C18_inc_dec_decimal_digits.
+
+Theorem C18_inc_dec_decimal_leading_zero_refuted :
+  forall k, inc_decimal (48 :: repeat 57 (S k)) = Some (49 :: repeat 48 (S k)) /\
+            dec_decimal (49 :: repeat 48 (S k)) = repeat 57 (S k).
+Proof. exact inc_dec_decimal_leading_zero_refuted. Qed.
+Print Assumptions C18_inc_dec_decimal_leading_zero_refuted.
+
+(* strictly above the base and strictly below the next release: vX.Y.(Z+1) for a release
+   base, vX.Y.Z for a prerelease base (next_release, Module/Pseudo.v) *)
+Theorem C18_pseudo_between :
+  forall major older ts rv pv,
+    is_valid older = true ->
+    (length ts = 14%nat /\ forallb is_digit ts = true) ->
+    (rv <> [] /\ forallb is_alnum rv = true) ->
+    pseudo_version major older ts rv = Some pv ->
+    compare older pv = -1 /\ compare pv (next_release older) = -1.
+Proof. exact pseudo_between. Qed.
+Print Assumptions C18_pseudo_between.
+
+Theorem C18_pseudo_nobase_below :
+  forall major older ts rv pv,
+    (major = [] \/ exists M, major = 118 :: M /\ numeral M = true) ->
+    parse older = None ->
+    (length ts = 14%nat /\ forallb is_digit ts = true) ->
+    (rv <> [] /\ forallb is_alnum rv = true) ->
+    pseudo_version major older ts rv = Some pv ->
+    pv = (if is_nil major then B "v0" else major) ++ B ".0.0-" ++ ts ++ B "-" ++ rv /\
+    compare pv ((if is_nil major then B "v0" else major) ++ B ".0.0") = -1.
+Proof. exact pseudo_nobase_below. Qed.
+Print Assumptions C18_pseudo_nobase_below.
+
+(* same major and base: a lexicographically smaller 14-digit timestamp gives a smaller
+   version, whatever the two revisions *)
+Theorem C18_pseudo_time_monotone :
+  forall major older ts1 rv1 ts2 rv2 pv1 pv2,
+    (major = [] \/ exists M, major = 118 :: M /\ numeral M = true) ->
+    (length ts1 = 14%nat /\ forallb is_digit ts1 = true) -> (rv1 <> [] /\ forallb is_alnum rv1 = true) ->
+    (length ts2 = 14%nat /\ forallb is_digit ts2 = true) -> (rv2 <> [] /\ forallb is_alnum rv2 = true) ->
+    str_cmp ts1 ts2 = Lt ->
+    pseudo_version major older ts1 rv1 = Some pv1 ->
+    pseudo_version major older ts2 rv2 = Some pv2 ->
+    compare pv1 pv2 = -1.
+Proof. exact pseudo_time_monotone. Qed.
+Print Assumptions C18_pseudo_time_monotone.
+
+(* the hypotheses are satisfiable, and the functions compute what the documentation shows *)
+Example C18_examples :
+  let ts := B "20191109021931" in let rv := B "daa7c04131f5" in
+  (length ts = 14%nat /\ forallb is_digit ts = true) /\ (rv <> [] /\ forallb is_alnum rv = true) /\
+  pseudo_version (B "v1") [] ts rv = Some (B "v1.0.0-20191109021931-daa7c04131f5") /\
+  pseudo_version (B "v1") (B "v1.2.3") ts rv = Some (B "v1.2.4-0.20191109021931-daa7c04131f5") /\
+  pseudo_version (B "v1") (B "v1.2.3-pre") ts rv = Some (B "v1.2.3-pre.0.20191109021931-daa7c04131f5") /\
+  pseudo_version (B "v2") (B "v2.9.99+incompatible") ts rv = Some (B "v2.9.100-0.20191109021931-daa7c04131f5+incompatible") /\
+  pseudo_version_base (B "v2.9.100-0.20191109021931-daa7c04131f5+incompatible") = POk (B "v2.9.99+incompatible") /\
+  pseudo_version_base (B "v1.0.0-0.20191109021931-daa7c04131f5") = PErr 2 /\
+  pseudo_version_base (B "v1.0.0-20191109021931-daa7c04131f5+incompatible") = PErr 1 /\
+  next_release (B "v1.2.3") = B "v1.2.4" /\ next_release (B "v1.2.3-pre") = B "v1.2.3".
+Proof. vm_compute. repeat split; discriminate. Qed.
